@@ -27,6 +27,11 @@ def subset_records(ctx, rng, nid):
         if P >= 4:
             case['mode'] = 'linear' if case['mode'] != 'const' else 'const'
         S = sorted(rng.sample(range(1, P + 1), rng.randint(1, P - 1)))
+        if not ctx.quick and P <= 4:
+            # thorough: cycle through every proper non-empty subset
+            import itertools as _it
+            allS = [list(c_) for r_ in range(1, P) for c_ in _it.combinations(range(1, P + 1), r_)]
+            S = allS[len(recs) % len(allS)]
         try:
             events, out = ic.run_case(case, 0, keep_out=True)
             dts = [float(common.frac(e['dt'])) for e in events if e['op'] == 'inject']
